@@ -107,6 +107,9 @@ const (
 	Reflect
 )
 
+// maximum number of color stops added on each side to repeat a gradient
+const maxRepeatedStops = 10000
+
 // LinearGradient handle spread (repeat) for linear gradients
 // It is used for SVG and CSS gradient rendering.
 func (spread GradientSpread) LinearGradient(positions []Fl, colors []parser.RGBA, x1, y1, dx, dy, vectorLength Fl) backend.GradientLayout {
@@ -144,8 +147,19 @@ func (spread GradientSpread) LinearGradient(positions []Fl, colors []parser.RGBA
 			previousColors = append(colors, reverseColors(colors)...)
 		}
 
+		// With a tiny distance between the first and the last stop (or a huge
+		// vector) the loops below would add stops without end : render a
+		// solid color, as allowed by the specification for such gradients
+		solid := func() backend.GradientLayout {
+			color := gradientAverageColor(colors, positions)
+			return backend.GradientLayout{ScaleY: 1, GradientKind: backend.GradientKind{Kind: "solid"}, Colors: []parser.RGBA{color}}
+		}
+
 		// Add colors after last step
 		for i := 0; last < vectorLength; i++ {
+			if i >= maxRepeatedStops {
+				return solid()
+			}
 			step := nextSteps[i%len(nextSteps)]
 			colors = append(colors, nextColors[i%len(nextColors)])
 			positions = append(positions, positions[len(positions)-1]+step)
@@ -154,6 +168,9 @@ func (spread GradientSpread) LinearGradient(positions []Fl, colors []parser.RGBA
 
 		// Add colors before last step
 		for i := 0; first > 0; i++ {
+			if i >= maxRepeatedStops {
+				return solid()
+			}
 			step := previousSteps[i%len(previousSteps)]
 			colors = append([]parser.RGBA{previousColors[i%len(previousColors)]}, colors...)
 			positions = append([]Fl{positions[0] - step}, positions...)
